@@ -66,6 +66,10 @@ pub struct Case {
     pub masked: bool,
     /// page limits (each mapped to 1..=pairs+2, cycled)
     pub limits: Vec<u16>,
+    /// all build rows get distinct hashes (pool[0] + row * odd step), none is NULL, no slack: the map takes
+    /// the unique-key fast path; probe choices then select a build row's hash (or a miss)
+    #[serde(default)]
+    pub unique: bool,
 }
 
 fn pool_value() -> BoxedStrategy<u64> {
@@ -109,9 +113,9 @@ impl Property for C14 {
             (prop::collection::vec(any::<u16>(), 0..=3), any::<bool>(), prop::bool::weighted(0.15), prop_oneof![4 => Just(0u8), 1 => 0u8..4], prop_oneof![9 => Just(0u8), 1 => 1u8..20]),
             prop::collection::vec((any::<u16>(), prop::bool::weighted(0.8)), 0..=max_probe),
             prop::bool::weighted(0.6),
-            prop::collection::vec(any::<u16>(), 1..=4),
+            (prop::collection::vec(any::<u16>(), 1..=4), prop::bool::weighted(0.2)),
         )
-            .prop_map(|((wide, pool, miss), build, (cuts, rev_rows, desc_batches, slack, doff), probe, masked, limits)| Case {
+            .prop_map(|((wide, pool, miss), build, (cuts, rev_rows, desc_batches, slack, doff), probe, masked, (limits, unique))| Case {
                 wide,
                 pool,
                 miss,
@@ -124,11 +128,12 @@ impl Property for C14 {
                 probe,
                 masked,
                 limits,
+                unique,
             })
             .boxed()
     }
     fn budget(&self, tier: Tier) -> Budget {
-        Budget::new(tier.pick(20_000, 3_000_000), tier.pick(8, 16)).min_nontrivial(tier.pick(2_000, 100_000))
+        Budget::new(tier.pick(300_000, 12_000_000), tier.pick(8, 16)).min_nontrivial(tier.pick(50_000, 1_000_000))
     }
     fn rule(&self) -> String {
         "build side 0-64/0-200 rows over a pool of <= 6 hash values (long chains, NULL-key rows skipped) inserted via update_from_iter in 1-4 batches (forward/reversed rows), U32/U64 map, \
@@ -148,12 +153,20 @@ impl Property for C14 {
         }
         let n = case.build.len();
         let doff = case.doff as usize;
-        let build: Vec<Option<u64>> = case.build.iter().map(|b| b.map(|c| case.pool[pick_index(c, case.pool.len())])).collect();
-        let mut probe_src = case.pool.clone();
+        let build: Vec<Option<u64>> = if case.unique {
+            let step = case.miss.first().copied().unwrap_or(1) | 1;
+            (0..n).map(|r| Some(case.pool[0].wrapping_add((r as u64).wrapping_mul(step)))).collect()
+        } else {
+            case.build.iter().map(|b| b.map(|c| case.pool[pick_index(c, case.pool.len())])).collect()
+        };
+        let mut probe_src: Vec<u64> = if case.unique { build.iter().flatten().copied().collect() } else { case.pool.clone() };
+        if probe_src.is_empty() {
+            probe_src.push(case.pool[0]);
+        }
         probe_src.extend_from_slice(&case.miss);
         let probe: Vec<u64> = case.probe.iter().map(|(c, _)| probe_src[pick_index(*c, probe_src.len())]).collect();
         let valid: Vec<bool> = case.probe.iter().map(|(_, v)| !case.masked || *v).collect();
-        let cap = n + case.slack as usize;
+        let cap = if case.unique { n } else { n + case.slack as usize };
 
         // ---- build
         let mut map: Box<dyn JoinHashMapType> = if case.wide { Box::new(JoinHashMapU64::with_capacity(cap)) } else { Box::new(JoinHashMapU32::with_capacity(cap)) };
